@@ -656,6 +656,13 @@ func TestReplay(t *testing.T) {
 			}
 			return checkSweep(c)
 		},
+		"TestC02BulkRangeDelete": func(raw json.RawMessage) error {
+			var c bulkCase
+			if err := json.Unmarshal(raw, &c); err != nil {
+				return err
+			}
+			return checkBulk(c)
+		},
 		"TestC02ReadStability": func(raw json.RawMessage) error {
 			var c stabCase
 			if err := json.Unmarshal(raw, &c); err != nil {
